@@ -1499,10 +1499,14 @@ class GeoboxTiles:
     ) -> Dict[Tuple[int, int], List[Tuple[int, int]]]:
         deps: Dict[Tuple[int, int], List[Tuple[int, int]]] = {}
 
+        ny, nx = src.base.shape.yx
         for idx in self._all_tiles():
             bbox = self.pix_bbox(idx).transform(A).round()
-            src_idx = list(src.tiles(bbox))
-            deps[idx] = src_idx
+            (x0, x1), (y0, y1) = bbox.range_x, bbox.range_y
+            if x1 <= 0 or y1 <= 0 or x0 >= nx or y0 >= ny:
+                # outside of src, ``src.tiles`` would clamp it to the nearest edge tile
+                continue
+            deps[idx] = list(src.tiles(bbox))
 
         return deps
 
